@@ -89,7 +89,7 @@ def check_log(path, run_name, stdout_is_tty, res, counters, seen, full, stderr_i
         env = {k: _val(ev, k) for k in VARS}
         g = ev["global"]
         key = (run_name, g) + tuple(env[k] for k in VARS)
-        if full:
+        if full and not ev.get("swapped") and "reattach" not in ev:
             seen[key] = seen.get(key, 0) + 1
         counters["environments_observed"] = counters.get("environments_observed", 0) + 1
         if ev["global_read_back"] != g:
@@ -106,8 +106,12 @@ def check_log(path, run_name, stdout_is_tty, res, counters, seen, full, stderr_i
                 res.violation("c09:stdout-lock", "[%s] AutoStream::choice(&stdout.lock()) = %s differs from choice(&stdout)" % (run_name, d["choice"]), check="c09")
                 continue
             # which streams are terminals is arranged by the driver; the child's own std observation must agree
-            arranged = {"vec": False, "file": False, "ttyfile": True, "mut_ttyfile": True, "box_dyn": False, "stdout": stdout_is_tty, "stdout_lock": stdout_is_tty,
-                        "stderr": stderr_is_tty, "stderr_lock": stderr_is_tty}[kind]
+            # (in events marked "swapped" the child has exchanged what its descriptors 1 and 2 are attached to)
+            out_tty, err_tty = (stderr_is_tty, stdout_is_tty) if ev.get("swapped") else (stdout_is_tty, stderr_is_tty)
+            if ev.get("swapped"):
+                counters["decisions_after_reattaching_the_standard_streams"] = counters.get("decisions_after_reattaching_the_standard_streams", 0) + 1
+            arranged = {"vec": False, "file": False, "ttyfile": True, "mut_ttyfile": True, "box_dyn": False, "stdout": out_tty, "stdout_lock": out_tty,
+                        "stderr": err_tty, "stderr_lock": err_tty}[kind]
             if d["is_terminal_std"] != arranged:
                 raise Inconclusive("[%s] stream %s: driver arranged terminal=%s but the child observes %s" % (run_name, kind, arranged, d["is_terminal_std"]))
             ck = "decisions_terminal" if arranged else "decisions_non_terminal"
@@ -220,7 +224,7 @@ def replay(doc):
     return None
 
 
-def adapted_lane(res):
+def adapted_lane(res, tier="quick"):
     """C08 uses the same child for `to_adapted_string`: whatever choice the detection makes for a stream, the helper must
     render like AutoStream::new(Vec, that choice): stripped for Never, unchanged otherwise (metamorphic: the observed
     choice is the input of the oracle, not the decision table)."""
@@ -249,7 +253,26 @@ def adapted_lane(res):
                 want = "X" if d["choice"] == "Never" else PROBE_TEXT
                 if d["adapted"] != want:
                     res.violation("c08:to_adapted_string", "global=%s stream=%s: detection chose %s but to_adapted_string rendered %r (expected %r)" % (ev["global"], d["stream"], d["choice"], d["adapted"], want), check="c08", lane="to_adapted_string")
-        res.add_lane("to_adapted_string", "held", {"calls_checked": n, "by_detected_choice": by_choice}, evaluations=n, distinct=len(by_choice))
+        # generated texts (with escapes, with DEL / C0 controls only, long): the child compares the helper with
+        # AutoStream::new(Vec, detected choice) itself and logs disagreements
+        log2 = os.path.join(work, "adapted.jsonl")
+        ntexts = 2000 if tier == "quick" else 50000
+        p = subprocess.run([exe, log2, os.path.join(work, "regular.txt"), "-", "adapted", str(common.SEED), str(ntexts)], env=env, stdin=subprocess.DEVNULL, stdout=subprocess.PIPE, stderr=subprocess.PIPE, timeout=1800)
+        if p.returncode != 0:
+            raise Inconclusive("vh-env adapted exited with %d: %s" % (p.returncode, p.stderr[-300:]))
+        summary = None
+        for line in open(log2):
+            ev = json.loads(line)
+            if ev["ev"] == "adapted-mismatch":
+                res.violation("c08:to_adapted_string", "global=%s: detection chose %s but to_adapted_string rendered %s, AutoStream::new(Vec, %s) renders %s" % (ev["global"], ev["decided"], ev["got"], ev["decided"], ev["want"]), check="c08", lane="to_adapted_string",
+                              case={"kind": "c08-adapted", "bytes_hex": [ev["text_hex"]], "nums": []})
+            elif ev["ev"] == "adapted-summary":
+                summary = ev
+        if summary is None:
+            raise Inconclusive("vh-env adapted wrote no summary")
+        n += summary["evaluations"]
+        res.add_lane("to_adapted_string", "held", {"calls_checked": n, "by_detected_choice": by_choice, "generated_texts_compared_with_the_stream": summary["evaluations"],
+                                                   "generated_by_decided_choice": summary["by_decided_choice_auto_alwaysansi_always_never"]}, evaluations=n, distinct=len(by_choice) + summary["evaluations"])
     finally:
         shutil.rmtree(work, ignore_errors=True)
 
